@@ -154,11 +154,11 @@ def classes(case):
 
 
 @st.composite
-def _cases(draw):
+def _cases(draw, large=False):
     spec = draw(st.sampled_from([{'name': 'default'}, {'name': 'amr'}, {'name': 'noop'}]))
-    j = draw(trees.wf_trees(spec, max_nodes=8))
+    j = draw(trees.wf_trees(spec, max_nodes=40 if large else 8, wide=6 if large else 3))
     return {'tree': j, 'model': spec, 'fmt': draw(st.sampled_from(FORMATS))}
 
 
 def stages(tier):
-    return [Hyp('random', _cases, 6000, 200000)]
+    return [Hyp('random', _cases, 6000, 200000), Hyp('random-large', lambda: _cases(large=True), 300, 15000)]
